@@ -67,8 +67,24 @@ const LAYOUTS: &[(&str, Option<(&str, Option<&str>)>)] = &[
 ];
 
 pub fn run(n: usize, rng: &mut Rng, rep: &mut Report) {
-    let md = Cfg::stock().build();
-    for (docu, want) in LAYOUTS {
+    let md_plain = Cfg::stock().build();
+    // the same plugins reached through a HISTORY: everything but the reference rule, one parse (the chains are compiled),
+    // then the reference plugin - definitions must work whenever the plugin was added
+    let md_hist = {
+        use markdown_it::plugins::cmark::{block, inline};
+        let mut m = markdown_it::MarkdownIt::new();
+        inline::newline::add(&mut m); inline::escape::add(&mut m); inline::backticks::add(&mut m); inline::emphasis::add(&mut m);
+        inline::link::add(&mut m); inline::image::add(&mut m); inline::autolink::add(&mut m); inline::entity::add(&mut m);
+        block::code::add(&mut m); block::fence::add(&mut m); block::blockquote::add(&mut m); block::hr::add(&mut m); block::list::add(&mut m);
+        block::heading::add(&mut m); block::lheading::add(&mut m); block::paragraph::add(&mut m);
+        markdown_it::plugins::html::add(&mut m);
+        let _ = crate::util::guarded(|| m.parse("[w]: /warm\n\n[w] *up*\n\n- x").render());
+        let _ = format!("{:?}", m.block);
+        block::reference::add(&mut m);
+        m
+    };
+    for (li, (docu, want)) in LAYOUTS.iter().enumerate().chain(LAYOUTS.iter().enumerate()) .enumerate().map(|(j, (i, x))| (if j >= LAYOUTS.len() { i + 1000 } else { i }, x)) {
+        let md = if li >= 1000 { &md_hist } else { &md_plain };
         let input = format!("src={}", hexs(docu));
         let tree = match crate::util::guarded(|| md.parse(docu)) { Ok(t) => t, Err(_) => continue };
         rep.stats.case(&input, true);
@@ -117,6 +133,7 @@ pub fn run(n: usize, rng: &mut Rng, rep: &mut Report) {
         if use_at >= defs.len() { blocks.push(use_block.clone()); }
         let docu = blocks.join("\n\n");
         let input = format!("src={}", hexs(&docu));
+        let md = if rng.chance(1, 5) { rep.stats.count("parser_by_history"); &md_hist } else { &md_plain };
         let tree = match crate::util::guarded(|| md.parse(&docu)) { Ok(t) => t, Err(_) => { rep.stats.count("skipped_panic_C01"); continue; } };
         rep.stats.case(&input, k >= 2);
         let mut links = vec![];
